@@ -813,8 +813,20 @@ class _Ctx:
                 kwargs[k.arg] = self.expr(k.value, env)
         return self.call_value(f, args, kwargs)
 
+    # positional order of the generative-function-interface methods: `gf.edit(key, tr, request=r, argdiffs=a)` is the same call as `gf.edit(key, tr, r, a)`
+    _GFI_SIG = {
+        "simulate": ("key", "args"), "assess": ("sample", "args"), "generate": ("key", "constraint", "args"), "importance": ("key", "constraint", "args"),
+        "project": ("key", "trace", "selection"), "edit": ("key", "trace", "edit_request", "argdiffs"), "update": ("key", "trace", "constraint", "argdiffs"),
+        "propose": ("key", "args"), "random_weighted": None, "estimate_logpdf": None,
+    }
+
     def call_value(self, f, args, kwargs):
         ev = self.ev
+        if kwargs and is_t(f, "attr") and self._GFI_SIG.get(f[2]) and "**" not in kwargs:
+            sig = self._GFI_SIG[f[2]]
+            if len(args) <= len(sig) and set(kwargs) <= set(sig[len(args):]) and all(n in kwargs for n in sig[len(args):len(args) + len(kwargs)]):
+                args = list(args) + [kwargs[n] for n in sig[len(args):len(args) + len(kwargs)]]
+                kwargs = {}
         # ---- closures
         clo = ev.closure_of(f)
         if clo is not None:
